@@ -73,9 +73,19 @@ esac
 case " $PROPS " in *" C05 "*|*" C05gen "*)
   /venv/bin/python "$ROOT/harness/translate/py2gallina_c05.py" 2> >(grep -v conda >&2) || echo "setup: translator rejected the source (coq/Gen/AccumGen.v is a non-compiling stub)" >&2 ;;
 esac
+# C14 owns coq/Gen/NewMarkerGen.v (new-object marker of RefinementContainer in sparseSpACE/RefinementContainer.py; theorems in Props/C14gen.v)
+case " $PROPS " in *" C14 "*|*" C14gen "*) /venv/bin/python "$ROOT/harness/translate/py2gallina_c14.py" 2> >(grep -v conda >&2) || echo "setup: translator rejected the source (coq/Gen/NewMarkerGen.v is a non-compiling stub)" >&2 ;; esac
 # C19 owns coq/Gen/ClassifyGen.v (Classification._classificate / _internal_scaling of sparseSpACE/DEMachineLearning.py; theorems in Props/C19gen.v)
 case " $PROPS " in *" C19 "*|*" C19gen "*)
   /venv/bin/python "$ROOT/harness/translate/py2gallina_c19.py" 2> >(grep -v conda >&2) || echo "setup: translator rejected the source (coq/Gen/ClassifyGen.v is a non-compiling stub)" >&2 ;;
+esac
+# C07 owns coq/Gen/CoarsenGridGen.v (decision arithmetic of SpatiallyAdaptiveExtendScheme.coarsen_grid in sparseSpACE/spatiallyAdaptiveExtendSplit.py; theorems in Props/C07gen.v)
+case " $PROPS " in *" C07 "*|*" C07gen "*)
+  /venv/bin/python "$ROOT/harness/translate/py2gallina_c07.py" 2> >(grep -v conda >&2) || echo "setup: translator rejected the source (coq/Gen/CoarsenGridGen.v is a non-compiling stub)" >&2 ;;
+esac
+# C10 owns coq/Gen/LagrangeParentGen.v (GlobalLagrangeGrid.get_parent of sparseSpACE/Grid.py; theorems in Props/C10gen.v)
+case " $PROPS " in *" C10 "*|*" C10gen "*)
+  /venv/bin/python "$ROOT/harness/translate/py2gallina_c10.py" 2> >(grep -v conda >&2) || echo "setup: translator rejected the source (coq/Gen/LagrangeParentGen.v is a non-compiling stub)" >&2 ;;
 esac
 # C20 owns coq/Gen/RegressGen.v (entry computation of Regression.build_C_matrix; theorems in Props/C20gen.v)
 case " $PROPS " in *" C20 "*)
